@@ -630,10 +630,16 @@ class RunBundler:
         self.reset_checkpoint_state()
 
     async def suspend_monitors(self):
+        # Idempotent, so that overlapping interruptions (pause, suspensions) never leave a monitor subscribed.
+        self._monitors_suspended = True
         for obj, (cb, kwargs) in self._monitor_params.items():  # noqa: B007
             obj.clear_sub(cb)
 
     async def restore_monitors(self):
+        # Only re-subscribe what suspend_monitors removed, so that a callback is never subscribed twice.
+        if not getattr(self, "_monitors_suspended", False):
+            return
+        self._monitors_suspended = False
         for obj, (cb, kwargs) in self._monitor_params.items():
             obj.subscribe(cb, **kwargs)
 
